@@ -95,8 +95,9 @@ Rn(e, n) ==
          IN Res(l.ts \o <<Tk(e.op, TRUE)>> \o r.ts, Ann([e EXCEPT !.l = l.e, !.r = r.e], [optk |-> n + Len(l.ts) + 1]))
     [] e.k = "list" ->
          LET r == RnList(e.es, n + 1, 1)
-         IN Res(<<Tk("[", TRUE)>> \o r.ts \o <<Tk("]", FALSE)>>,
-                Ann([e EXCEPT !.es = r.es], [lbtk |-> n + 1, rbtk |-> n + 2 + Len(r.ts)]))
+             tc == IF e.tc THEN <<Tk(",", TRUE)>> ELSE <<>>      \* a trailing comma: the closing bracket is still the bracket
+         IN Res(<<Tk("[", TRUE)>> \o r.ts \o tc \o <<Tk("]", FALSE)>>,
+                Ann([e EXCEPT !.es = r.es], [lbtk |-> n + 1, rbtk |-> n + 2 + Len(r.ts) + Len(tc)]))
     [] e.k = "map" ->
          LET RECURSIVE Kv(_, _)
              Kv(i, m) == IF i > Len(e.ks) THEN [ts |-> <<>>, ks |-> <<>>, vs |-> <<>>]
@@ -107,8 +108,9 @@ Rn(e, n) ==
                               IN [ts |-> kr.ts \o <<Tk(":", TRUE)>> \o vr.ts \o comma \o rest.ts,
                                   ks |-> <<kr.e>> \o rest.ks, vs |-> <<vr.e>> \o rest.vs]
              r == Kv(1, n + 1)
-         IN Res(<<Tk("{", TRUE)>> \o r.ts \o <<Tk("}", FALSE)>>,
-                Ann([e EXCEPT !.ks = r.ks, !.vs = r.vs], [lbtk |-> n + 1, rbtk |-> n + 2 + Len(r.ts)]))
+             tc == IF e.tc THEN <<Tk(",", TRUE)>> ELSE <<>>
+         IN Res(<<Tk("{", TRUE)>> \o r.ts \o tc \o <<Tk("}", FALSE)>>,
+                Ann([e EXCEPT !.ks = r.ks, !.vs = r.vs], [lbtk |-> n + 1, rbtk |-> n + 2 + Len(r.ts) + Len(tc)]))
     [] e.k = "idx" ->
          LET RECURSIVE Ix(_, _)
              Ix(i, m) == IF i > Len(e.is) THEN [ts |-> <<>>, is |-> <<>>, lbs |-> <<>>, rbs |-> <<>>]
